@@ -86,7 +86,12 @@ Definition eol2 (e : eolk) : list N := match e with LF => [32;10] | CR => [32;13
    generation, free flag *)
 Record ent := mk_ent { e_nr : N; e_a : N; e_b : N; e_free : bool }.
 
-Record obj := mk_obj { o_nr : N; o_gen : N; o_body : list N }.
+(* o_gen: the generation number passed to writeObject (printed in the "n g obj" line; it comes from the
+   indirect reference being written).  o_xgen: *entry.Generation of the object's xref table entry at the
+   time the cross-reference is written (printed in the xref entry by writeXRefSubsection).  They are
+   different variables in the code: e.g. writeNullObject writes "n g obj null" with the generation of a
+   stale reference and XRefTable.UndeleteObject then sets the entry's generation to (free generation - 1). *)
+Record obj := mk_obj { o_nr : N; o_gen : N; o_xgen : N; o_body : list N }.
 
 (* writeObjects.go objectHeader: fmt.Sprintf("%d %d obj%s", objNr, genNr, eol) *)
 Definition obj_header (e : eolk) (nr gen : N) : list N := dec nr ++ [32] ++ dec gen ++ s_obj ++ eolb e.
@@ -107,7 +112,7 @@ Fixpoint write_objs (e : eolk) (off : N) (os : list obj) : list N * N * list ent
       let t := obj_trailer e in
       let written := lenN h + lenN (o_body o) + lenN t in
       let '(bytes, off', tbl) := write_objs e (off + written) r in
-      (h ++ o_body o ++ t ++ bytes, off', mk_ent (o_nr o) off (o_gen o) false :: tbl)
+      (h ++ o_body o ++ t ++ bytes, off', mk_ent (o_nr o) off (o_xgen o) false :: tbl)
   end.
 
 (* writeHeader: two comment lines; w.Offset += i + j *)
@@ -189,6 +194,31 @@ Definition free_object (frees : list ent) (nr gen : N) : list ent :=
   match frees with
   | h :: r => mk_ent (e_nr h) nr (e_b h) true :: mk_ent nr (e_a h) (gen + 1) true :: r
   | [] => []
+  end.
+
+(* model/xreftable.go UndeleteObject: follow the free list from object 0; when the link reaches `target`,
+   unlink it (predecessor.offset := entry.offset), decrement its generation if > 0, mark it in use.
+   Returns the remaining free entries and the revived entry's new generation (None: not on the list).
+   Outer None: the walk hits a link to a non-free object (Go: error) or does not terminate. *)
+Fixpoint undelete_walk (fuel frees : list ent) (prev cur target : N) : option (list ent * option N) :=
+  if cur =? 0 then Some (frees, None) else
+  match fuel with
+  | [] => None
+  | _ :: fuel' =>
+      match find (fun x => e_nr x =? cur) frees with
+      | None => None
+      | Some x =>
+          if cur =? target then
+            Some (map (fun y => if e_nr y =? prev then mk_ent (e_nr y) (e_a x) (e_b y) true else y)
+                      (filter (fun y => negb (e_nr y =? cur)) frees),
+                  Some (if 0 <? e_b x then N.pred (e_b x) else 0))
+          else undelete_walk fuel' frees cur (e_a x) target
+      end
+  end.
+Definition undelete_object (frees : list ent) (target : N) : option (list ent * option N) :=
+  match find (fun x => e_nr x =? 0) frees with
+  | Some h => undelete_walk frees frees 0 (e_a h) target
+  | None => None
   end.
 
 (* ------------------------------------------------------------------ (B) the strict checker *)
